@@ -115,7 +115,14 @@ impl RouterInfoApi {
         connected_at: &DateTime<Utc>,
         last_message_at: &Arc<RwLock<DateTime<Utc>>>,
     ) -> String {
+        // Don't trust external input: sysName, sysDescr, the free-form
+        // information strings, parse error texts and the request path could
+        // contain HTML or JavaScript which would be rendered by the client.
+        let sys_name = html_escape::encode_safe(sys_name);
+        let sys_desc = html_escape::encode_safe(sys_desc);
         let sys_extra = sys_extra.join("|");
+        let sys_extra = html_escape::encode_safe(&sys_extra);
+        let base_http_path = html_escape::encode_safe(&base_http_path);
         let connected_at = connected_at.to_rfc3339();
         let last_message_at = last_message_at.read().unwrap().to_rfc3339();
         let router_bmp_metrics =
@@ -151,9 +158,11 @@ impl RouterInfoApi {
         for err in start.iter().chain(end.iter()) {
             writeln!(error_report, "  When: {}", err.when.to_rfc3339())
                 .unwrap();
-            writeln!(error_report, "  What: {}", err.msg).unwrap();
+            let msg = html_escape::encode_safe(&err.msg);
+            writeln!(error_report, "  What: {}", msg).unwrap();
             writeln!(error_report, "  Soft: {}", err.recoverable).unwrap();
             if let Some(pcaptext) = &err.pcaptext {
+                let pcaptext = html_escape::encode_safe(pcaptext);
                 writeln!(error_report, "  PCAP: {}", pcaptext).unwrap();
             } else {
                 writeln!(error_report, "  PCAP: None").unwrap();
